@@ -100,6 +100,10 @@ DEFAULTS = {
     "[Int]": ("[1, 2]", "[]", "null"),
     "[Color!]": ("[RED]", "[GREEN, BLUE]"),
     "Pt": ("{x: 1}", "{x: 2, y: 3}", "{x: 0, tag: \"t\"}"),
+    # an input object all of whose fields are optional: the empty object is a
+    # value of its own
+    "Opts": ("{}", "{tag: \"x\"}", "{n: 2, tag: \"\"}"),
+    "[Opts!]": ("[{}, {tag: \"x\"}]", "[{}]", "[]"),
 }
 
 
@@ -143,6 +147,8 @@ def gen_sdl(seed, idx):
     out.append(
         "%sinput Box {\n  pt: Pt! = {x: 7}\n  tags: [String!]\n"
         "  shade: Color = GREEN\n  fill_color: Color\n}" % _desc(r))
+
+    out.append("input Opts {\n  tag: String\n  n: Int\n}")
 
     # a small palette of argument kinds per schema, so that several fields
     # declare the same argument names (with or without defaults)
